@@ -97,8 +97,21 @@ func TestLossValues(t *testing.T) {
 	rng := rand.New(rand.NewSource(seed()))
 	grid := []float64{0, 1, 0.5, eps, 1 - eps, eps / 2, 1 - eps/2, 2 * eps, -0.3, 1.7, 1e6, -1e6, 0.25}
 	for _, lc := range lossCases() {
-		for _, s := range lossShapes(lc.rank) {
+		shs := lossShapes(lc.rank)
+		// large batches: a summation that changes its strategy with the number of elements (blocked / pairwise fast paths,
+		// seeds C12-5 and C19-4) is invisible to batches of four
+		for _, b := range []int{130, 257, 1000, 20000} {
+			if lc.rank == 1 {
+				shs = append(shs, []int{b})
+			} else if b <= 1000 {
+				shs = append(shs, []int{b, 2})
+			}
+		}
+		for _, s := range shs {
 			for rep := 0; rep < 12; rep++ {
+				if s[0] > 4 && rep >= 2 {
+					break
+				}
 				p, tg := newRef(s), newRef(s)
 				for i := range p.Data {
 					p.Data[i] = grid[rng.Intn(len(grid))]
